@@ -4,7 +4,7 @@
    (None = the key was gone) and the PTTL reply (-2 gone / expired, -1 no expiry).  `rump` is
    the fetcher + writer + the two target connections; `spec_rump` is defined from the listing
    alone. *)
-From RS Require Import Base.Bytes Model.Filter Model.Rump Model.Cupcake Model.Restore Proofs.RestoreProofs Proofs.RumpProofs.
+From RS Require Import Base.Bytes Model.Filter Model.Rump Model.Rdb Model.Cupcake Model.Restore Proofs.RestoreProofs Proofs.RumpProofs.
 Open Scope Z_scope.
 
 (* for EVERY source keyspace, pagination, pattern of vanishing keys and configuration: the
